@@ -8,14 +8,19 @@ RULE = ("OrderStats.tla: quantile at the exact rational index (n-1)q under four 
         "DESIGN 5.5), percentile-of-score, average ranks, partitions as multiset specifications; the mirrored selection "
         "for q > 1/2 and vrank's run-length loop are operational models checked against the definitions (MirrorOK, "
         "RankLoopOK incl. write-once); every series within the bound is replayed into vquantile / vmedian / "
-        "vpercentile_of / vrank / vpartition / varg_partition on f64, Option<f64>, Option<i32>, i32 and instrumented inputs")
+        "vpercentile_of / vrank / vpartition / varg_partition on f64, Option<f64>, Option<i32>, i32 and instrumented inputs; "
+        "random long series (lengths 17..64, Randomization!RandomSubset as initial states) are replayed the same way, "
+        "because selection changes strategy with the length")
 
 
 def run(ctx):
     q = ctx.quick
     r = ctx.tlc("order", "MCOrder", "MCOrder_quick.cfg" if q else "MCOrder_thorough.cfg", workers=12, timeout=3000)
+    # selection switches strategy with the length: random long series (17..47, thorough ..64) as initial states
+    rl = ctx.tlc("order-long", "MCOrder", "MCOrder_long.cfg" if q else "MCOrder_long_thorough.cfg", workers=4, timeout=3000)
     binp = ctx.build("tvh-agg")
     ctx.harness("order", binp, ["replay-order", "--in", r["emitted"]])
+    ctx.harness("order-long", binp, ["replay-order", "--in", rl["emitted"]])
     ctx.assumptions += BASE_ASSUMPTIONS + [
         "where (n-1)q is an integer and q is not a binary fraction the result for either neighbouring index is accepted "
         "(DESIGN 5.5)",
